@@ -115,6 +115,20 @@ def window_scenarios(ctx, n, start_run):
     return out
 
 
+def stopretry_scenarios(ctx, n, start_run):
+    """Stop() arrives while a failing batch is between two attempts"""
+    out = []
+    for k in range(n):
+        run = start_run + k
+        nev = ctx.rng.randint(1, 4)
+        retry = ctx.rng.choice([2, 3])
+        lines = [dict(id=i + 1, src=1, stream="a", cls="P") for i in range(nev)]
+        out.append(base(run, name="stop-mid-retry-%d" % run, mode="random", window="stopretry", cap=8, workers=ctx.rng.choice([1, 2]), batch=ctx.rng.choice([1, 2]),
+                        retry=retry, retention_us=20000, mult10=15, fail_pct=100, max_fails=ctx.rng.choice([retry + 2, 1000]), dq=ctx.rng.random() < 0.4,
+                        lines=lines, jitter=False))
+    return out
+
+
 def attend_scenarios(ctx, n, start_run):
     """K streams charged back to back while every processor that picks one stays parked in its first Do"""
     out = []
